@@ -110,9 +110,11 @@ def expand_split(split):
 class Native:
     """native (sanitizer) build of the current /repo tree for replay and translator validation"""
 
-    def __init__(self, scratch, sanitize=True):
+    def __init__(self, scratch, sanitize=True, complex_build=False):
         self.scratch = scratch
-        self.dir = os.path.join(scratch, 'native')
+        self.complex_build = complex_build
+        self.sibling = None
+        self.dir = os.path.join(scratch, 'native_cplx' if complex_build else 'native')
         self.lib = None
         self.sanitize = sanitize
         self.flags = ['-std=c++11', '-O1', '-g', '-DNDEBUG', '-w', '-fno-access-control', '-D' + build.GUARD]
@@ -125,13 +127,23 @@ class Native:
         self.libs = ['-Wl,--wrap=exp', '-lboost_mpi', '-lboost_serialization', '-L/usr/lib/x86_64-linux-gnu/openmpi/lib', '-lmpi_cxx', '-lmpi']
         self.error = None
 
+    def pick(self, u):
+        """the native build matching the unit's configuration (real or complex matrix elements)"""
+        if bool(u.get('complex')) == self.complex_build:
+            return self
+        if self.sibling is None:
+            self.sibling = Native(self.scratch, self.sanitize, not self.complex_build)
+            self.sibling.sibling = self
+        return self.sibling
+
     def ensure_lib(self):
         if self.lib or self.error:
             return self.lib
         os.makedirs(os.path.join(self.dir, 'inc', 'pomerol'), exist_ok=True)
         with open(os.path.join(self.dir, 'inc', 'pomerol', 'first_include.h'), 'w') as f:
             f.write('#ifndef __INCLUDE_FIRST_INCLUDE_H_a83f82k\n#define __INCLUDE_FIRST_INCLUDE_H_a83f82k\n'
-                    '#define POMEROL_VERSION "1.3"\n#define POMEROL_CXX11\n#endif\n')
+                    '#define POMEROL_VERSION "1.3"\n#define POMEROL_CXX11\n' +
+                    ('#define POMEROL_COMPLEX_MATRIX_ELEMENTS\n' if self.complex_build else '') + '#endif\n')
         objs = []
 
         def one(s):
@@ -523,6 +535,7 @@ def run_property(prop_id, spec, tier, seed=0, only_unit=None, keep=False, verbos
 
 def validate_unit(native, unit_path, u, vec):
     """concrete run in E2 (exact rationals) vs native run (doubles): records must agree"""
+    native = native.pick(u)
     exe = native.build_harness(u['harness'], u.get('defs', []))
     if exe is None:
         return False, 'native harness build failed: ' + getattr(native, 'last_error', '')[:800]
@@ -560,6 +573,7 @@ def validate_unit(native, unit_path, u, vec):
 
 
 def replay(native, u, inputs, label, issue_kind):
+    native = native.pick(u)
     exe = native.build_harness(u['harness'], u.get('defs', []))
     if exe is None:
         return dict(reproduced=False, why='native build failed: %s' % (native.error or getattr(native, 'last_error', ''))[:600])
